@@ -99,6 +99,38 @@ class SimResource:
         return types.SimpleNamespace(ru_utime=self._clock.now, ru_stime=0.0)
 
 
+def _light_dataframe(fs):
+    """Stand-in for `pd.DataFrame(rows).to_csv(path)`: same table (index column, union of the keys in
+    first-seen order, empty cell for a missing value), rendered with the csv module.  pandas itself
+    costs ~25 ms and hundreds of page faults per run, which are serialised in this sandbox; set
+    env["real_pandas"] to render with the real library (selftest compares both)."""
+    import csv
+    import io
+
+    class LightDataFrame:
+        def __init__(self, rows):
+            self.rows = list(rows)
+
+        def to_csv(self, path=None):
+            cols = []
+            for r in self.rows:
+                for k in r:
+                    if k not in cols:
+                        cols.append(k)
+            buf = io.StringIO()
+            w = csv.writer(buf, lineterminator="\n")
+            if not cols:
+                buf.write('""\n')
+            else:
+                w.writerow([""] + cols)
+                for i, r in enumerate(self.rows):
+                    w.writerow([i] + ["" if r.get(c) is None else r.get(c) for c in cols])
+            if path is None:
+                return buf.getvalue()
+            fs.write_whole(path, buf.getvalue())
+    return LightDataFrame
+
+
 def install(fs, env, solver=None, forves=None):
     """Rebind the seams in every repo module.  `env` is a plain dict of run settings:
     tmp_name, forves_present.  Returns the dict of repo modules."""
@@ -111,12 +143,15 @@ def install(fs, env, solver=None, forves=None):
     def sim_open(path, mode="r", *a, **k):
         return fs.open(path, mode, *a, **k)
 
-    class SimDataFrame(_pd.DataFrame):
-        def to_csv(self, path=None, *a, **k):
-            text = _pd.DataFrame.to_csv(self, None, *a, **k)
-            if path is None:
-                return text
-            fs.write_whole(path, text)
+    if env.get("real_pandas"):
+        class SimDataFrame(_pd.DataFrame):
+            def to_csv(self, path=None, *a, **k):
+                text = _pd.DataFrame.to_csv(self, None, *a, **k)
+                if path is None:
+                    return text
+                fs.write_whole(path, text)
+    else:
+        SimDataFrame = _light_dataframe(fs)
 
     sim_pd = types.SimpleNamespace(DataFrame=SimDataFrame)
     sim_shutil = types.SimpleNamespace(rmtree=fs.rmtree)
